@@ -424,3 +424,74 @@ Definition define_bounds (phi : Q -> Q) (pymin pzmin pymax pzmax : Q) : bounds :
   {| b_azmin := azmin; b_azmax := azmax; b_aymin := aymin; b_aymax := aymax;
      b_pzmin := pzmin'; b_pzmax := pzmax'; b_pymin := pymin'; b_pymax := pymax';
      b_lo := lo; b_hi := hi; b_start := snd (nth ind0 G (0, 0)) |}.
+
+(* ------------------------------------------------------------------ AnamHermite::fitFromArray (no weights) *)
+(* /repo/src/Anamorphosis/AnamHermite.cpp:313 and _data_sort:559.  Oracles: ys (Gaussian quantiles of the cumulated frequencies),
+   Gc = law_cdf_gaussian(ys), g = law_df_gaussian(ys), the square roots. *)
+Definition EPS5 : Q := 5902958103587057 # 590295810358705651712.      (* EPSILON5 *)
+Fixpoint q_insert (x : Q) (l : list Q) : list Q :=
+  match l with [] => [x] | y :: r => if qltb x y then x :: l else y :: q_insert x r end.
+Definition q_sort (l : list Q) : list Q := fold_right q_insert [] l.
+(* groups of equal values of a sorted list, with their counts *)
+Fixpoint rle (l : list Q) : list (Q * nat) :=
+  match l with
+  | [] => []
+  | x :: r => match rle r with
+              | (y, c) :: g => if qeqb x y then (y, S c) :: g else (x, 1%nat) :: (y, c) :: g
+              | [] => [(x, 1%nat)]
+              end
+  end.
+Definition defined_values (data : list (option Q)) : list Q :=
+  flat_map (fun o => match o with Some q => [q] | None => [] end) data.
+(* class values zs[0..m+1] = v1 - eps, v1 .. vm, vm + eps  with eps = EPSILON5 * (vm - v1) *)
+Definition fit_zs (vals : list Q) : list Q :=
+  match vals with
+  | [] => []
+  | v1 :: _ => let vm := last vals v1 in let eps := EPS5 * (vm - v1) in (v1 - eps) :: vals ++ [vm + eps]
+  end.
+(* cumulated frequencies F_1 .. F_{m-1} (the last group is closed by the upper bound, not by a frequency) *)
+Fixpoint cum_freqs (counts : list nat) (acc n : Q) : list Q :=
+  match counts with
+  | [] | [_] => []
+  | c :: r => let acc' := acc + natQ c in Qred (acc' / n) :: cum_freqs r acc' n
+  end.
+(* psi_0 = sum_icl zs[icl] * (Gc[icl] - Gc[icl-1]),  Gc[-1] = 0 *)
+Fixpoint abel_sum (zs a : list Q) (prev : Q) : Q :=
+  match zs, a with
+  | z :: zs', x :: a' => Qred (z * (x - prev) + abel_sum zs' a' x)
+  | _, _ => 0
+  end.
+(* psi_n = sum_icl zs[icl] * (H_{n-1}(ys[icl]) g[icl] - H_{n-1}(ys[icl-1]) g[icl-1]) / sqrt(n), with g[-1] = 0 *)
+Definition fit_psi (sq : nat -> Q) (nbpoly : nat) (zs ys Gc g : list Q) : list Q :=
+  let H := map (fun y => herm_gen sq sq y nbpoly) ys in        (* H[icl][n] *)
+  abel_sum zs Gc 0 ::
+  map (fun n => Qred (abel_sum zs (map (fun p => nth (n - 1) (fst p) 0 * snd p) (combine H g)) 0 / sq n)) (seq 1 (nbpoly - 1)).
+
+(* ------------------------------------------------------------------ PCA::_variogramh (interval mode, MAF) *)
+(* /repo/src/Stats/PCA.cpp:712.  Pairs (iech, jech), jech < iech, both isotopic, hmin <= |x_i - x_j| <= hmax (decided on squares,
+   hmin, hmax >= 0):  gh(a,b) = sum over the pairs of (z_i[a] - z_j[a]) (z_i[b] - z_j[b]) / 2, divided by the number of pairs *)
+Definition dist2 (a b : list Q) : Q := fold_left (fun acc p => Qred (acc + (fst p - snd p) * (fst p - snd p))) (combine a b) 0.
+Definition pair_kept (hmin hmax : Q) (xa xb : list Q) : bool :=
+  let d2 := dist2 xa xb in negb (qltb d2 (hmin * hmin)) && negb (qltb (hmax * hmax) d2).
+(* differences z_i - z_j of the retained pairs; a point = (isotopic, coordinates, values) *)
+Fixpoint pair_diffs (hmin hmax : Q) (n : nat) (pts : list (bool * list Q * list Q)) : list (list Q) :=
+  match pts with
+  | [] => []
+  | (iso, x, z) :: r =>
+      (if iso then
+         flat_map (fun q => match q with (iso', x', z') =>
+                     if iso' && pair_kept hmin hmax x x' then [vk n (fun a => vget z a - vget z' a)] else [] end) r
+       else []) ++ pair_diffs hmin hmax n r
+  end.
+Definition variogramh (n : nat) (D : list (list Q)) : mat :=
+  let np := natQ (length D) in
+  mk n n (fun a b => let s := lsumr (map (fun d => vget d a * vget d b / 2) D) in
+                     if Nat.eqb (length D) 0 then s else Qred (s / np)).
+
+(* ------------------------------------------------------------------ rotation matrices from (cos, sin) pairs *)
+(* GH::rotation2DMatrixInPlace / rotation3DMatrixInPlace (GeometryHelper.cpp:132 / 157), read column-major by setValues *)
+Definition rot2d (c s : Q) : mat := [[c; - s]; [s; c]].
+Definition rot3d (c0 s0 c1 s1 c2 s2 : Q) : mat :=
+  [[c0 * c1; - s0 * c2 + c0 * s1 * s2;  s0 * s2 + c0 * s1 * c2];
+   [s0 * c1;   c0 * c2 + s0 * s1 * s2; - c0 * s2 + s0 * s1 * c2];
+   [- s1;      c1 * s2;                  c1 * c2]].
